@@ -402,6 +402,8 @@ off64_t gd_seek64(DIRFILE *D, const char *field_code, off64_t frame_num,
     pos = _GD_GetIOPos(D, entry, -1);
   else if (whence == GD_SEEK_END) {
     pos = _GD_GetEOF(D, entry, NULL, &is_index);
+    if (!D->error && !is_index && pos < 0)
+      pos = 0;
     if (is_index)
       _GD_SetError(D, GD_E_BAD_FIELD_TYPE, GD_E_FIELD_BAD, NULL, 0, field_code);
   } else
